@@ -122,13 +122,13 @@ Definition bound (q : req) : Z :=
   match q with
   | RIdle => 0
   | RWsdl => 13
-  | RValidate _ _ => 4
+  | RValidate _ _ | RValidateX _ => 4
   | RAttrs ks | RMemo ks | RSort ks => 7 * Z.of_nat (length ks) + 6
   end.
 
 Lemma measure_init : forall v t, measure (thr (init v reqs) t) <= bound (reqs t).
 Proof.
-  intros v t. cbn [init thr]. destruct (reqs t) as [| |ok e|ks|ks|ks]; destruct v;
+  intros v t. cbn [init thr]. destruct (reqs t) as [| |ok e|e|ks|ks|ks]; destruct v;
     try destruct ks as [|k0 ks];
     cbn [tinit measure tpc todo rank bound]; change (@length Z []) with 0%nat; lia.
 Qed.
